@@ -75,7 +75,7 @@ Step ==
     /\ l' = l + 1
     /\ LET r == Rec[l]
            v == IF r.k = "run" THEN RunVerdict(r) ELSE IF r.k \in {"dotbdd", "dottree"} THEN DotVerdict(r) ELSE "panic / unknown record"
-       IN /\ (IF v = "" THEN TRUE ELSE PrintT(<<"REJECT", l, v>>))
+       IN /\ (IF v = "" THEN TRUE ELSE PrintT("REJECT|" \o ToString(l) \o "|" \o v))
           /\ seen' = IF r.k = "run" /\ v = "" /\ r.exit = 0 /\ r.key \notin DOMAIN seen
                      THEN [k \in DOMAIN seen \cup {r.key} |-> IF k = r.key THEN r.digest ELSE seen[k]]
                      ELSE seen
